@@ -31,6 +31,18 @@ theorem okOf_eq_some {r : Except Err Val} {w : Val} : okOf r = some w ↔ r = .o
 theorem okOf_eq_none {r : Except Err Val} : okOf r = none ↔ ∃ e, r = .error e := by
   cases r <;> simp [okOf]
 
+/-- what the `float` leaf returns: a float that was given or loaded, or the conversion of an int in float range -/
+theorem adaptLeaf_float_ok (O : Oracle) (v w : Val) (h : adaptLeaf O .float v = .ok w) :
+    ∃ r, w = .flt r ∧ (loadIfStr O v = .flt r ∨ ∃ i, loadIfStr O v = .int i ∧ toFlt O i = some r) := by
+  simp only [adaptLeaf] at h
+  split at h
+  · rename_i i hi
+    split at h
+    · rename_i r hr; simp at h; subst h; exact ⟨r, rfl, Or.inr ⟨i, hi, hr⟩⟩
+    · simp at h
+  · rename_i r hr; simp at h; subst h; exact ⟨r, rfl, Or.inl hr⟩
+  · simp at h
+
 /-! ### `allM` -/
 
 inductive F2 {α β : Type} (R : α → β → Prop) : List α → List β → Prop
